@@ -16,7 +16,7 @@ def known(ops):
 
 # ---------------------------------------------------------------- int x int
 w("//@ func (vm *VM) evalIntegerInfixExpression(op code.Opcode, left object.Object, right object.Object) (err error)")
-w("//@   requires vmOK(vm) && stackValid(vm) && isInt(left) && isInt(right) && ptr(left) != 0 && ptr(right) != 0")
+w("//@   requires vmOK(vm) && isInt(left) && isInt(right) && ptr(left) != 0 && ptr(right) != 0")
 w("//@   modifies vm.stack.entries, vm.stack.entries[*]")
 for n, o in arith:
     w("//@   ensures @C01 int.%s: op == code.Op%s ==> err == nil && pushed1(vm) && topInt(vm, wrap64(old(ival(left)) %s old(ival(right))))" % (n.lower(), n, o))
@@ -27,14 +27,13 @@ w("//@   ensures @C01 @pinned int.power: op == code.OpPower ==> err == nil && pu
 for n, o in cmps:
     w("//@   ensures @C01 int.%s: op == code.Op%s ==> err == nil && pushed1(vm) && topBool(vm, old(ival(left)) %s old(ival(right)))" % (n.lower(), n, o))
 w("//@   ensures @C01 int.badop: %s ==> err != nil && stackSame(vm)" % known(twelve))
-w("//@   ensures int.valid: stackValid(vm)")
 w("//@   panics when op == code.OpMod && ival(right) == 0")
 w()
 
 # ---------------------------------------------------------------- float mixes
 def floatfn(name, lexpr, rexpr, lt, rt, tag):
     w("//@ func (vm *VM) %s(op code.Opcode, left object.Object, right object.Object) (err error)" % name)
-    w("//@   requires vmOK(vm) && stackValid(vm) && %s(left) && %s(right) && ptr(left) != 0 && ptr(right) != 0" % (lt, rt))
+    w("//@   requires vmOK(vm) && %s(left) && %s(right) && ptr(left) != 0 && ptr(right) != 0" % (lt, rt))
     w("//@   modifies vm.stack.entries, vm.stack.entries[*]")
     L, R = "old(%s)" % lexpr, "old(%s)" % rexpr
     for n, o in arith:
@@ -46,7 +45,6 @@ def floatfn(name, lexpr, rexpr, lt, rt, tag):
     for n, o in cmps:
         w("//@   ensures @C01 %s.%s: op == code.Op%s ==> err == nil && pushed1(vm) && topBool(vm, %s %s %s)" % (tag, n.lower(), n, L, o, R))
     w("//@   ensures @C01 %s.badop: %s ==> err != nil && stackSame(vm)" % (tag, known(twelve)))
-    w("//@   ensures %s.valid: stackValid(vm)" % tag)
     w("//@   panics when op == code.OpMod && f2i(%s) == 0" % rexpr)
     w()
 
@@ -56,14 +54,13 @@ floatfn("evalIntegerFloatInfixExpression", "i2f(ival(left))", "fval(right)", "is
 
 # ---------------------------------------------------------------- string x string
 w("//@ func (vm *VM) evalStringInfixExpression(op code.Opcode, left object.Object, right object.Object) (err error)")
-w("//@   requires vmOK(vm) && stackValid(vm) && isStr(left) && isStr(right) && ptr(left) != 0 && ptr(right) != 0")
+w("//@   requires vmOK(vm) && isStr(left) && isStr(right) && ptr(left) != 0 && ptr(right) != 0")
 w("//@   modifies vm.stack.entries, vm.stack.entries[*]")
 for n, o in cmps:
     w("//@   ensures @C01 str.%s: op == code.Op%s ==> err == nil && pushed1(vm) && topBool(vm, old(sval(left)) %s old(sval(right)))" % (n.lower(), n, o))
 w("//@   ensures @C01 str.add: op == code.OpAdd ==> err == nil && pushed1(vm) && topStr(vm, old(sval(left)) + old(sval(right)))")
 w("//@   ensures @C01 @C16 str.in: op == code.OpArrayIn ==> err == nil && pushed1(vm) && topBool(vm, strContains(old(sval(right)), old(sval(left))))")
 w("//@   ensures @C01 str.badop: %s ==> err != nil && stackSame(vm)" % known([c for c, _ in cmps] + ["Add", "ArrayIn"]))
-w("//@   ensures str.valid: stackValid(vm)")
 w("//@   panics never")
 w()
 if len(sys.argv) == 1:
@@ -75,7 +72,7 @@ def binop():
     D2 = "old(depth(vm)) >= 2"
     L, R = "T2(vm)", "T1(vm)"
     w("//@ func (vm *VM) executeBinaryOperation(op code.Opcode) (err error)")
-    w("//@   requires vmOK(vm) && stackValid(vm)")
+    w("//@   requires vmOK(vm)")
     w("//@   modifies vm.stack.entries, vm.stack.entries[*]")
     ok = "err == nil && replaced2(vm)"
     notLogic = "op != code.OpAnd && op != code.OpOr"
@@ -125,7 +122,6 @@ def binop():
     # same non-numeric, non-string, non-boolean type: arithmetic and ordering are errors
     w("//@   ensures @C01 bin.nonnum: %s && tag(%s) == tag(%s) && !isNum(%s) && !isStr(%s) && !isBool(%s) && %s && op != code.OpArrayIn && op != code.OpEqual && op != code.OpNotEqual ==> err != nil" % (D2, L, R, L, L, L, notLogic))
     w("//@   ensures @C18 bin.underflow: old(depth(vm)) < 2 ==> err != nil")
-    w("//@   ensures bin.valid: stackValid(vm)")
     w("//@   panics when %s && ((isNum(%s) && isNum(%s) && op == code.OpMod && %s && (isInt(%s) && isInt(%s) ? ival(%s) == 0 : f2i(fl(%s)) == 0)) || (isStr(%s) && isRegexp(%s) && %s) || (op == code.OpArrayIn && isArray(%s) && %s && !(isNum(%s) && isNum(%s)) && !(isStr(%s) && isStr(%s))))" % (
         "depth(vm) >= 2", "TT2(vm)", "TT1(vm)", "true", "TT2(vm)", "TT1(vm)", "TT1(vm)", "TT1(vm)", "TT2(vm)", "TT1(vm)", notLogic, "TT1(vm)", "true", "TT2(vm)", "TT1(vm)", "TT2(vm)", "TT1(vm)"))
     w()
